@@ -131,8 +131,16 @@ def main():
     ap.add_argument("--work", default=facts.WORK)
     ap.add_argument("--list", action="store_true")
     ap.add_argument("--all", action="store_true")
+    ap.add_argument("--warm", action="store_true", help="only (re)generate the facts for the current tree")
     ap.add_argument("--verbose", "-v", action="store_true")
     a = ap.parse_args()
+    if a.warm:
+        try:
+            facts.load(a.repo, a.work)
+        except facts.FactsError as e:
+            print("ERROR: %s" % e, file=sys.stderr)
+            return 2
+        return 0
     if a.list:
         for pid, spec in sorted(registry.PROPERTIES.items()):
             print(pid, [u["rule"] for u in spec["rules"]])
